@@ -15,9 +15,9 @@ import (
 )
 
 type implEnv struct {
-	env eval.Env
+	env  eval.Env
 	ents types.EntityMap
-	req cedar.Request
+	req  cedar.Request
 }
 
 var refEnvs []*Env
@@ -30,7 +30,7 @@ func init() {
 		implEnvs = append(implEnvs, implEnv{
 			env:  eval.Env{Entities: em, Principal: e.Principal.ToImpl(), Action: e.Action.ToImpl(), Resource: e.Resource.ToImpl(), Context: e.Context.ToImpl()},
 			ents: em,
-			req: cedar.Request{Principal: e.Principal.ToImpl().(types.EntityUID), Action: e.Action.ToImpl().(types.EntityUID), Resource: e.Resource.ToImpl().(types.EntityUID), Context: e.Context.ToImpl().(types.Record)},
+			req:  cedar.Request{Principal: e.Principal.ToImpl().(types.EntityUID), Action: e.Action.ToImpl().(types.EntityUID), Resource: e.Resource.ToImpl().(types.EntityUID), Context: e.Context.ToImpl().(types.Record)},
 		})
 	}
 }
